@@ -1,2 +1,180 @@
--- stub driver, replaced by the builder of X04
-def main : IO Unit := pure ()
+import PyramidModel.Prelude
+import PyramidModel.Lemmas.AssetsSpec
+/-! Driver for X04: one JSON case per line.
+in : {"op":"serve","pkgs":[[name,root],…],"nodes":[[abs path,isdir],…],"queries":[[pkg,name],…],
+      "mode":"app","batches":[[[to_override,override_with],…],…]}
+   | {… "mode":"po","pkg":p,"inserts":[[path,["pkg",name,prefix]|["fs",prefix]],…]}
+   | {"op":"spec","pkgs":…,"spec":s,"pname":s|null,"abspath":s,"pkg":s}
+out: serve: {"fail":[phase,idx,err]} | {"q":[{"o":O|null,"p":P,"s":P},…]}      (O = PackageOverrides level, `null` answers kept;
+       P = provider level; "s" = the six observations of the place the READING serves)
+     spec : {"resolve":[p|null,f],"abspath":t,"desc":[…],"fromabs":t}
+The world is a listing of normalised absolute paths (`/T` stands for the scratch directory of the harness). -/
+open Pyr Pyr.Assets Lean
+
+abbrev Nodes := List (Text × Bool)
+abbrev Roots := List (Text × Text)
+
+def tx (s : String) : Text := s.toList
+def js (t : Text) : Json := Json.str (String.ofList t)
+
+def segsOf (raw : Text) : List Text := (splitSlash raw).filter (· ≠ [])
+def keyOf (raw : Text) : Text := '/' :: joinSegs (segsOf raw)
+
+/-- what `os.stat`/`os.listdir` find for a raw path string: empty segments are ignored, a trailing slash makes a
+regular file disappear; the generator never produces `.`/`..` segments -/
+def lookupRaw (ns : Nodes) (raw : Text) : Node :=
+  let k := keyOf raw
+  match ns.lookup k with
+  | none => .absent
+  | some false => if endsWithSlash raw then .absent else .file
+  | some true =>
+    let pre := if k = ['/'] then k else k ++ ['/']
+    .dir (ns.filterMap fun (p, _) =>
+      if pre.isPrefixOf p ∧ p ≠ k then
+        let rest := p.drop pre.length
+        if rest.contains '/' ∨ rest = [] then none else some rest
+      else none)
+
+def locText (roots : Roots) : Loc → Text
+  | .inPkg p path => match roots.lookup p with
+    | some root => fn root path
+    | none => tx "?" ++ p
+  | .onFs path => path
+
+def worldOf (roots : Roots) (ns : Nodes) : World := fun l => lookupRaw ns (locText roots l)
+
+def errJ : Err → Json
+  | .isDir => "isdir"
+  | .notDir => "notdir"
+  | .notFound => "notfound"
+
+def exJ {α} (f : α → Json) : Except Err α → Json
+  | .ok a => Json.arr #["ok", f a]
+  | .error e => Json.arr #["err", errJ e]
+
+def exOptJ {α} (f : α → Json) : Except Err (Option α) → Json
+  | .ok (some a) => Json.arr #["ok", f a]
+  | .ok none => Json.null
+  | .error e => Json.arr #["err", errJ e]
+
+def cfgErrJ : CfgErr → Json
+  | .itself => "itself"
+  | .absMissing => "absmissing"
+  | .importError => "import"
+  | .dirWithFile => "dirwithfile"
+  | .fileWithDir => "filewithdir"
+
+def parseSource (j : Json) : Except String Source :=
+  match j with
+  | .arr #[.str "pkg", .str n, .str p] => pure (.pkg (tx n) (tx p))
+  | .arr #[.str "fs", .str p] => pure (.fs (tx p))
+  | _ => throw "bad source"
+
+def pairs (j : Json) : Except String (List (Text × Text)) :=
+  match j with
+  | .arr xs => xs.toList.mapM fun x => match x with
+    | .arr #[.str a, .str b] => pure (tx a, tx b)
+    | _ => throw "bad pair"
+  | _ => throw "bad pairs"
+
+def serve (j : Json) : Except String Json := do
+  let roots ← pairs (← getField j "pkgs")
+  let nodesJ ← getField j "nodes"
+  let ns : Nodes ← match nodesJ with
+    | .arr xs => xs.toList.mapM fun x => match x with
+      | .arr #[.str p, .bool d] => pure (tx p, d)
+      | _ => throw "bad node"
+    | _ => throw "bad nodes"
+  let w := worldOf roots ns
+  let importable : Text → Bool := fun p => (roots.lookup p).isSome
+  let queries ← pairs (← getField j "queries")
+  let mode : String ← getAs j "mode"
+  let lt := fun l => js (locText roots l)
+  let key := fun l => js (keyOf (locText roots l))
+  let names := fun (es : List Text) => Json.arr (es.map js).toArray
+  -- the registry and, for the reading, the accepted declarations per package
+  let (reg, declsFor) ← match mode with
+    | "app" => do
+      let bj ← getField j "batches"
+      let batches ← match bj with
+        | .arr xs => xs.toList.mapM pairs
+        | _ => throw "bad batches"
+      match runBatches w importable 0 [] batches with
+      | .error f =>
+        let r : Except String (Registry × (Text → List Decl)) :=
+          throw ("FAIL " ++ (Json.arr #[if f.phase = .declare then "declare" else "commit", toJson f.idx, cfgErrJ f.err]).compress)
+        r
+      | .ok reg =>
+        -- the reading's declarations: every accepted statement in declaration order (validated one by one)
+        let accs := batches.flatten.filterMap fun (a, b) => match overrideAsset w importable a b with
+          | .ok acc => some acc
+          | .error _ => none
+        pure (reg, fun p => declsOf accs p)
+    | "po" => do
+      let pkg : String ← getAs j "pkg"
+      let ij ← getField j "inserts"
+      let ins ← match ij with
+        | .arr xs => xs.toList.mapM fun x => match x with
+          | .arr #[.str p, s] => do pure ((tx p, ← parseSource s) : Decl)
+          | _ => throw "bad insert"
+        | _ => throw "bad inserts"
+      let ovs := ins.foldl (fun os d => insert os d.1 d.2) []
+      pure ([(tx pkg, ovs)], fun p => if p = tx pkg then ins else [])
+    | _ => throw "bad mode"
+  let out := queries.map fun (p, name) =>
+    let ovs := reg.get p
+    let o : Json := match ovs with
+      | none => Json.null
+      | some os => Json.mkObj [
+          ("fn", exOptJ lt (PO.getFilename w os name)), ("st", exOptJ key (PO.getStream w os name)),
+          ("sg", exOptJ key (PO.getString w os name)), ("has", exOptJ toJson (PO.hasResource w os name)),
+          ("isd", exOptJ toJson (PO.isdir w os name)), ("ls", exOptJ names (PO.listdir w os name))]
+    let pj := Json.mkObj [
+      ("fn", exJ lt (Prov.filename w ovs p name)), ("st", exJ key (Prov.stream w ovs p name)),
+      ("sg", exJ key (Prov.string w ovs p name)), ("has", exJ toJson (Prov.hasResource w ovs p name)),
+      ("isd", exJ toJson (Prov.isdir w ovs p name)), ("ls", exJ names (Prov.listdir w ovs p name))]
+    let l := specServed w (declsFor p) p name
+    let sj := Json.mkObj [
+      ("fn", exJ lt (.ok l)), ("st", exJ key (openAt w l)), ("sg", exJ key (openAt w l)),
+      ("has", exJ toJson (.ok (w l).there)), ("isd", exJ toJson (.ok (w l).isDir)), ("ls", exJ names (listAt w l))]
+    Json.mkObj [("o", o), ("p", pj), ("s", sj)]
+  return Json.mkObj [("q", Json.arr out.toArray)]
+
+def specOp (j : Json) : Except String Json := do
+  let roots ← pairs (← getField j "pkgs")
+  let spec : String ← getAs j "spec"
+  let pname : Option String ← match (← getField j "pname") with
+    | .null => pure none
+    | .str s => pure (some s)
+    | _ => throw "bad pname"
+  let abspath : String ← getAs j "abspath"
+  let pkg : String ← getAs j "pkg"
+  let rf : Text → Text → Text := fun p f => match roots.lookup p with
+    | some root => fn root f
+    | none => tx "!import"
+  let (rp, rfn) := resolveAssetSpec (tx spec) (pname.map tx)
+  let desc : Json := match resolve (pname.map tx) (tx spec) with
+    | .fs p => Json.arr #["fs", js p]
+    | .pkg n p => Json.arr #["pkg", js n, js p]
+    | .valueError => Json.arr #["valueError"]
+  let root := (roots.lookup (tx pkg)).getD (tx "?")
+  return Json.mkObj [
+    ("resolve", Json.arr #[match rp with | some p => js p | none => Json.null, js rfn]),
+    ("abspath", js (abspathFromAssetSpec rf (tx spec) (pname.map tx))),
+    ("desc", desc),
+    ("fromabs", js (assetSpecFromAbspath (tx abspath) (tx pkg) root))]
+
+def main : IO Unit := jsonDriver fun j => do
+  let op : String ← getAs j "op"
+  match op with
+  | "serve" =>
+    match serve j with
+    | .ok r => pure r
+    | .error e =>
+      if e.startsWith "FAIL " then
+        match Json.parse (e.drop 5).toString with
+        | .ok f => pure (Json.mkObj [("fail", f)])
+        | .error e' => throw e'
+      else throw e
+  | "spec" => specOp j
+  | _ => throw "bad op"
